@@ -112,7 +112,15 @@ KF_C17_first_run_side_effects(G) ==
         \A b \in Members(G, "clean") : Fin(G, a).execd[t] > Cnt(Fin(G, b).execd, t)
   \* the direct successors of the superseded executions are reset by the rerun; what is left behind
   \* lies deeper (get_task_sequence is one level deep) or is staging
-  /\ \A a \in Members(G, "rerun") : Fin(G, a).stale_min_depth >= 2
+  \* ... and something of them is demonstrably left: a terminal record deeper than a direct successor
+  \* (stale_min_depth modulo 1000 in 2..98) or a record started from staging they left behind (+1000)
+  /\ \A a \in Members(G, "rerun") :
+        LET sd == Fin(G, a).stale_min_depth IN
+        /\ (sd % 1000) >= 2
+        /\ \/ (sd % 1000) < 99 \/ sd >= 1000
+           \* ... or a context that only the superseded execution published is still recorded
+           \/ \E i \in 1..Len(Fin(G, a).pubs) : \A b \in Members(G, "clean") :
+                 \A j \in 1..Len(Fin(G, b).pubs) : Fin(G, b).pubs[j] # Fin(G, a).pubs[i]
 
 (* S20: the value of an output variable that concurrent branches write is taken from the terminal record *)
 (* that was created (started) last, not from the one that completed last; a pause delays the start of a   *)
